@@ -584,11 +584,11 @@ class GotWantException(AssertionError):
                     got = utils.color_text(got, 'red')
                     want = utils.color_text(want, 'red')
                 text = 'Expected:\n{}\nGot nothing\n'.format(utils.indent(want))
-            elif got:  # nocover
-                raise AssertionError('impossible state')
+            elif got:
+                # The want is empty after normalization, e.g. it only
+                # contains <BLANKLINE> markers
                 text = 'Expected nothing\nGot:\n{}'.format(utils.indent(got))
             else:  # nocover
-                raise AssertionError('impossible state')
                 text = 'Expected nothing\nGot nothing\n'
         return text
 
